@@ -91,6 +91,7 @@ pub fn build_live(family: &str, rng: &mut Rng, tier: u32) -> Option<LiveBuilt> {
         "local" => Some(live_local::build(rng, tier)),
         "blocker" => Some(live_park::build_blocker(rng, tier)),
         "park_sleepers" => Some(live_park::build_sleepers(rng, tier)),
+        "park_f6" => Some(live_park::build_f6(rng, tier)),
         "join" => Some(live_join::build(rng, tier)),
         "rwlock_live" => Some(live_rwlock::build(rng, tier)),
         "life" => Some(live_life::build(rng, tier)),
